@@ -1,4 +1,261 @@
-import PypyrModel.FsRewrite
+/-
+  C15 — in-place file rewrites are all-or-nothing.
+
+  Model: `PypyrModel/FsRewrite.lean` — directory state, the operation list of one `in_to_out` call
+  (`inplaceOps`: sameFile, openRead, mkTemp, fmt/write …, close, replace), the interpreter `exec`
+  with the `except` clauses of the code as it is now, the loop `runJobs` of `files_in_to_out`.
+  `exec … = (outcome, trace)`; the trace has one entry per executed operation: its label (with `!`
+  when it raised) and the directory after it. A plain label `"replace"` therefore means: the rename
+  succeeded.
+
+  Every theorem below quantifies over EVERY body (any number of fmt/write operations, any chunks),
+  EVERY start index and EVERY fault plan `Nat → Fault` (any number of raise/kill faults at any
+  operation indices) unless it says otherwise; the proofs are by induction over the operation list
+  (`Props/Lemmas/C15_Exec.lean`) and over the job list (`Props/Lemmas/C15_Multi.lean`).
+-/
+import Props.Lemmas.C15_Monitor
+
 namespace Pypyr.C15
-theorem placeholder : True := trivial
+open Pypyr.FsRewrite
+
+/- `WF fs0 src tmp body` (Props/Lemmas/C15_Exec.lean): the hypotheses of one well-formed in-place
+   rewrite — the source exists in `fs0`, the name the temp file will get is not in the directory
+   (NamedTemporaryFile picks an unused name), the body consists of fmt/write operations.
+   `JobsWF fs0 J` (Props/Lemmas/C15_Multi.lean): the same for every job of a list, plus
+   "no out, or out equal to in". -/
+
+private def fsEx : Fs := [("a.txt", "AA"), ("b.txt", "BB")]
+private def bodyEx : List Op := streamBody 1 ["X", "Y"]
+
+private theorem wfEx : WF fsEx "a.txt" "tmp#0" bodyEx where
+  srcExists := by decide +kernel
+  tmpFresh := by decide +kernel
+  bodyOps := by decide +kernel
+
+/-! ### One file -/
+
+/-- **src_always_whole.** At every prefix of the operation list, under every fault plan, the source
+    path holds the complete original bytes — unless the entry is the one produced by a successful
+    `replace`, in which case it holds the complete new content (the concatenation of all chunks). -/
+theorem src_always_whole {fs0 : Fs} {src tmp orig : String} {body : List Op}
+    (wf : WF fs0 src tmp body) (ho : fs0.get? src = some orig) (cfg : Cfg) (plan : Plan) (i : Nat) :
+    ∀ ev ∈ (exec cfg plan i { fs := fs0 } (inplaceOps src tmp body)).2,
+      ev.2.get? src = some orig ∨ (ev.1 = "replace" ∧ ev.2.get? src = some (newContent body)) := by
+  intro ev hm
+  have P := exec_inplace (cfg := cfg) (plan := plan) body wf.bodyOps wf.tmpFresh wf.srcExists i
+  rcases P.shape ev hm with hab | ⟨hl, hc⟩
+  · left
+    rcases hab with h | ⟨c, h⟩
+    · rw [h, ho]
+    · rw [h, Fs.get?_append_other wf.ne, ho]
+  · right
+    exact ⟨hl, by rw [hc]; exact Fs.get?_set_self⟩
+
+example : ∃ ev ∈ (exec {} (Plan.single 7 .kill) 0 { fs := fsEx } (inplaceOps "a.txt" "tmp#0" bodyEx)).2,
+    ev.2.get? "a.txt" = some "AA" ∧ ev.2.get? "tmp#0" = some "XY" :=
+  ⟨("write", [("a.txt", "AA"), ("b.txt", "BB"), ("tmp#0", "XY")]), by decide +kernel, by decide +kernel⟩
+
+/-- **raise_leaves_no_temp** (the code as it is now, `cleanupWrite = true`). A rewrite that ends by
+    raising — at whatever operation, after however many writes — leaves exactly the original
+    directory, provided the clean-up's own `os.remove` was not made to fail as well. -/
+theorem raise_leaves_no_temp {fs0 : Fs} {src tmp : String} {body : List Op}
+    (wf : WF fs0 src tmp body) (plan : Plan) (i j : Nat)
+    (hr : (exec {} plan i { fs := fs0 } (inplaceOps src tmp body)).1 = .raised j)
+    (hclean : plan (j + 1) ≠ .raise) :
+    final fs0 (exec {} plan i { fs := fs0 } (inplaceOps src tmp body)).2 = fs0 :=
+  (exec_inplace (cfg := {}) (plan := plan) body wf.bodyOps wf.tmpFresh wf.srcExists i).raised j hr rfl hclean
+
+/-- The same for every single-fault plan "operation `p` raises": the run ends `ok` (p beyond the
+    list) or `raised`, never with anything but the original directory in the latter case. -/
+theorem raise_leaves_no_temp_single {fs0 : Fs} {src tmp : String} {body : List Op}
+    (wf : WF fs0 src tmp body) (p j : Nat)
+    (hr : (exec {} (Plan.single p .raise) 0 { fs := fs0 } (inplaceOps src tmp body)).1 = .raised j) :
+    final fs0 (exec {} (Plan.single p .raise) 0 { fs := fs0 } (inplaceOps src tmp body)).2 = fs0 := by
+  have P := exec_inplace (cfg := {}) (plan := Plan.single p .raise) body wf.bodyOps wf.tmpFresh wf.srcExists 0
+  have hj := P.raisedAt j hr
+  have hjp : j = p := by
+    simp only [Plan.single] at hj
+    by_cases h : j = p
+    · exact h
+    · simp [h] at hj
+  apply raise_leaves_no_temp wf _ 0 j hr
+  simp [Plan.single, hjp]
+
+example : (exec {} (Plan.single 5 .raise) 0 { fs := fsEx } (inplaceOps "a.txt" "tmp#0" bodyEx)).1 = .raised 5 := by
+  decide +kernel
+
+/-- **success_same_entries.** A rewrite that ends `ok` leaves the directory with exactly the entries
+    it had, the source holding the complete new content and nothing else changed. -/
+theorem success_same_entries {fs0 : Fs} {src tmp : String} {body : List Op}
+    (wf : WF fs0 src tmp body) (cfg : Cfg) (plan : Plan) (i : Nat)
+    (hok : (exec cfg plan i { fs := fs0 } (inplaceOps src tmp body)).1 = .ok) :
+    let fin := final fs0 (exec cfg plan i { fs := fs0 } (inplaceOps src tmp body)).2
+    fin = fs0.set src (newContent body) ∧ fin.names = fs0.names ∧
+      fin.get? src = some (newContent body) := by
+  have P := exec_inplace (cfg := cfg) (plan := plan) body wf.bodyOps wf.tmpFresh wf.srcExists i
+  have h := P.ok hok
+  simp only []
+  rw [h]
+  exact ⟨rfl, Fs.names_set_of_mem wf.srcExists, Fs.get?_set_self⟩
+
+example : (exec {} Plan.clean 0 { fs := fsEx } (inplaceOps "a.txt" "tmp#0" bodyEx)).1 = .ok ∧
+    final fsEx (exec {} Plan.clean 0 { fs := fsEx } (inplaceOps "a.txt" "tmp#0" bodyEx)).2
+      = [("a.txt", "XY"), ("b.txt", "BB")] := by
+  decide +kernel
+
+/-- **kill_leaves_src_whole.** If the process is killed at any operation, the directory is the
+    original one, possibly with the temp entry in addition; the source holds its original bytes. -/
+theorem kill_leaves_src_whole {fs0 : Fs} {src tmp orig : String} {body : List Op}
+    (wf : WF fs0 src tmp body) (ho : fs0.get? src = some orig) (cfg : Cfg) (plan : Plan) (i j : Nat)
+    (hk : (exec cfg plan i { fs := fs0 } (inplaceOps src tmp body)).1 = .killed j) :
+    let fin := final fs0 (exec cfg plan i { fs := fs0 } (inplaceOps src tmp body)).2
+    (fin = fs0 ∨ ∃ c, fin = fs0 ++ [(tmp, c)]) ∧ fin.get? src = some orig := by
+  have P := exec_inplace (cfg := cfg) (plan := plan) body wf.bodyOps wf.tmpFresh wf.srcExists i
+  have h := P.killed j hk
+  simp only []
+  refine ⟨h, ?_⟩
+  rcases h with h | ⟨c, h⟩
+  · rw [h, ho]
+  · rw [h, Fs.get?_append_other wf.ne, ho]
+
+example : (exec {} (Plan.single 8 .kill) 0 { fs := fsEx } (inplaceOps "a.txt" "tmp#0" bodyEx)).1 = .killed 8 ∧
+    final fsEx (exec {} (Plan.single 8 .kill) 0 { fs := fsEx } (inplaceOps "a.txt" "tmp#0" bodyEx)).2
+      = fsEx ++ [("tmp#0", "XY")] := by
+  decide +kernel
+
+/-- **unmatched_untouched** (one file). Every path other than the source and the temp name holds,
+    at every prefix and under every fault plan, exactly what it held before. -/
+theorem unmatched_untouched {fs0 : Fs} {src tmp : String} {body : List Op}
+    (wf : WF fs0 src tmp body) (cfg : Cfg) (plan : Plan) (i : Nat) (p : String)
+    (hps : p ≠ src) (hpt : p ≠ tmp) :
+    ∀ ev ∈ (exec cfg plan i { fs := fs0 } (inplaceOps src tmp body)).2, ev.2.get? p = fs0.get? p := by
+  intro ev hm
+  have P := exec_inplace (cfg := cfg) (plan := plan) body wf.bodyOps wf.tmpFresh wf.srcExists i
+  rcases P.shape ev hm with hab | ⟨_, hc⟩
+  · rcases hab with h | ⟨c, h⟩
+    · rw [h]
+    · rw [h, Fs.get?_append_other hpt]
+  · rw [hc, Fs.get?_set_other hps]
+
+/-- **out_equal_in_is_inplace.** `in_to_out(in, out)` with `out` naming the same existing file
+    performs exactly the operation list of `in_to_out(in)`: the temp-then-replace route (so every
+    theorem above applies to it). -/
+theorem out_equal_in_is_inplace (fs : Fs) (src tmp : String) (body : List Op)
+    (hs : (fs.get? src).isSome) :
+    jobOps fs { src := src, out := some src, tmp := tmp, body := body } = inplaceOps src tmp body ∧
+    jobOps fs { src := src, out := some src, tmp := tmp, body := body }
+      = jobOps fs { src := src, out := none, tmp := tmp, body := body } := by
+  have h1 := jobOps_inplace fs { src := src, out := some src, tmp := tmp, body := body } hs (Or.inr rfl)
+  have h2 := jobOps_inplace fs { src := src, out := none, tmp := tmp, body := body } hs (Or.inl rfl)
+  exact ⟨h1, h1.trans h2.symm⟩
+
+/-- Why the same-file detection matters (witness): writing straight to the source (the direct
+    route with out = in) and failing at the second write leaves a truncated source. -/
+theorem direct_route_not_atomic :
+    final fsEx (exec {} (Plan.single 6 .raise) 0 { fs := fsEx } (directOps "a.txt" "a.txt" bodyEx)).2
+      = [("a.txt", "X"), ("b.txt", "BB")] := by
+  decide +kernel
+
+/-- **temp_leak_pre_fix** (defect F7, repaired by c58f36c). With the OLD `except` structure (no
+    clean-up when the write phase raises) the second line failing to format leaves the temp entry
+    behind: the directory after the raise is not the original one. -/
+theorem temp_leak_pre_fix :
+    (exec { cleanupWrite := false } (Plan.single 5 .raise) 0 { fs := fsEx }
+        (inplaceOps "a.txt" "tmp#0" bodyEx)).1 = .raised 5 ∧
+    final fsEx (exec { cleanupWrite := false } (Plan.single 5 .raise) 0 { fs := fsEx }
+        (inplaceOps "a.txt" "tmp#0" bodyEx)).2 = fsEx ++ [("tmp#0", "X")] := by
+  decide +kernel
+
+/-- …and the same plan against the code as it is now leaves the original directory. -/
+example : final fsEx (exec {} (Plan.single 5 .raise) 0 { fs := fsEx } (inplaceOps "a.txt" "tmp#0" bodyEx)).2
+    = fsEx := by
+  decide +kernel
+
+/-! ### Several files: the loop of `files_in_to_out` (single files, lists, globs) -/
+
+private def jobsEx : List Job :=
+  [{ src := "a.txt", tmp := "tmp#0", body := streamBody 1 ["X", "Y"] },
+   { src := "b.txt", out := some "b.txt", tmp := "tmp#1", body := objectBody ["Z"] }]
+
+private theorem jobsWfEx : JobsWF fsEx jobsEx where
+  srcExists := by decide +kernel
+  tmpFresh := by decide +kernel
+  bodyOps := by decide +kernel
+  inplace := by decide +kernel
+
+/-- **src_always_whole / unmatched_untouched for a whole run.** At every prefix of a multi-file
+    run, under every fault plan, every path that is not a temp name holds what it held originally,
+    or it is a matched source holding its complete new content. -/
+theorem src_always_whole_files {fs0 : Fs} {J : List Job} (wf : JobsWF fs0 J)
+    (hnd : (J.map (·.src)).Nodup) (cfg : Cfg) (plan : Plan) (i : Nat) :
+    ∀ ev ∈ (runJobs cfg plan i fs0 J).2, ∀ p, (∀ j ∈ J, p ≠ j.tmp) →
+      ev.2.get? p = fs0.get? p ∨ ∃ j ∈ J, p = j.src ∧ ev.2.get? p = some (newContent j.body) := by
+  intro ev hm
+  have M := runJobs_post cfg plan wf J (fun _ h => h) hnd i fs0 (fun p _ => Or.inl rfl) rfl
+  exact M.whole ev hm
+
+/-- **unmatched_untouched.** Files not matched by `in` (and not temp names) are byte-identical at
+    every prefix of the run, under every fault plan. -/
+theorem unmatched_untouched_files {fs0 : Fs} {J : List Job} (wf : JobsWF fs0 J)
+    (hnd : (J.map (·.src)).Nodup) (cfg : Cfg) (plan : Plan) (i : Nat) (p : String)
+    (hps : ∀ j ∈ J, p ≠ j.src) (hpt : ∀ j ∈ J, p ≠ j.tmp) :
+    ∀ ev ∈ (runJobs cfg plan i fs0 J).2, ev.2.get? p = fs0.get? p := by
+  have M := runJobs_post cfg plan wf J (fun _ h => h) hnd i fs0 (fun p _ => Or.inl rfl) rfl
+  exact M.frame p hps hpt
+
+/-- **raise_leaves_no_temp** for a run over several files: exactly the original entries remain. -/
+theorem raise_leaves_no_temp_files {fs0 : Fs} {J : List Job} (wf : JobsWF fs0 J)
+    (hnd : (J.map (·.src)).Nodup) (plan : Plan) (i j : Nat)
+    (hr : (runJobs {} plan i fs0 J).1 = .raised j) (hclean : plan (j + 1) ≠ .raise) :
+    (final fs0 (runJobs {} plan i fs0 J).2).names = fs0.names := by
+  have M := runJobs_post {} plan wf J (fun _ h => h) hnd i fs0 (fun p _ => Or.inl rfl) rfl
+  exact M.raised j hr rfl hclean
+
+/-- **success_same_entries** for a run over several files: same entries, every source new. -/
+theorem success_same_entries_files {fs0 : Fs} {J : List Job} (wf : JobsWF fs0 J)
+    (hnd : (J.map (·.src)).Nodup) (cfg : Cfg) (plan : Plan) (i : Nat)
+    (hok : (runJobs cfg plan i fs0 J).1 = .ok) :
+    (final fs0 (runJobs cfg plan i fs0 J).2).names = fs0.names ∧
+    ∀ j ∈ J, (final fs0 (runJobs cfg plan i fs0 J).2).get? j.src = some (newContent j.body) := by
+  have M := runJobs_post cfg plan wf J (fun _ h => h) hnd i fs0 (fun p _ => Or.inl rfl) rfl
+  exact M.ok hok
+
+/-- **kill_leaves_src_whole** for a run over several files: after a kill at most one `tmp` entry
+    is extra (and by `src_always_whole_files` every source is whole). -/
+theorem kill_leaves_src_whole_files {fs0 : Fs} {J : List Job} (wf : JobsWF fs0 J)
+    (hnd : (J.map (·.src)).Nodup) (cfg : Cfg) (plan : Plan) (i j : Nat)
+    (hk : (runJobs cfg plan i fs0 J).1 = .killed j) :
+    (final fs0 (runJobs cfg plan i fs0 J).2).names = fs0.names ∨
+    ∃ jb ∈ J, (final fs0 (runJobs cfg plan i fs0 J).2).names = fs0.names ++ [jb.tmp] := by
+  have M := runJobs_post cfg plan wf J (fun _ h => h) hnd i fs0 (fun p _ => Or.inl rfl) rfl
+  exact M.killed j hk
+
+example : (runJobs {} (Plan.single 14 .kill) 0 fsEx jobsEx).1 = .killed 14 ∧
+    final fsEx (runJobs {} (Plan.single 14 .kill) 0 fsEx jobsEx).2
+      = [("a.txt", "XY"), ("b.txt", "BB"), ("tmp#1", "Z")] := by
+  decide +kernel
+
+/-! ### The monitor -/
+
+/-- **model_holds_C15.** The monitor `judge` — the statement of C15 as a decidable predicate over
+    (directory before, directory after, matched sources with their new contents, how the run ended):
+    every source whole; after success every source new; no extra entry after ok/raise and only
+    `tmp#` entries extra after a kill; nothing missing; unmatched files identical — is satisfied by
+    the model's final directory for every job list and every fault plan in which a raise is not
+    immediately followed by a second raise (i.e. the clean-up's own `os.remove` is not failed too).
+    The correspondence harness evaluates the same `judge` on the IMPLEMENTATION's directories. -/
+theorem model_holds_C15 {fs0 : Fs} {J : List Job} (wf : JobsWF fs0 J) (hnd : (J.map (·.src)).Nodup)
+    (hnames : fs0.names.Nodup) (htmp : ∀ j ∈ J, isTempName j.tmp = true)
+    (plan : Plan) (hplan : ∀ i, plan i = .raise → plan (i + 1) ≠ .raise) (i : Nat) :
+    (judge fs0 (final fs0 (runJobs {} plan i fs0 J).2)
+      (J.map fun j => (j.src, newContent j.body)) (runJobs {} plan i fs0 J).1.toEnd).holds = true :=
+  judge_model wf hnd hnames htmp plan hplan i
+
+/-- The monitor is not vacuous: it rejects the pre-fix leftover and a truncated source. -/
+example : (judge fsEx (fsEx ++ [("tmp#0", "X")]) [("a.txt", "XY")] .raised).holds = false ∧
+    (judge fsEx [("a.txt", "X"), ("b.txt", "BB")] [("a.txt", "XY")] .raised).holds = false ∧
+    (judge fsEx [("a.txt", "XY"), ("b.txt", "B")] [("a.txt", "XY")] .ok).holds = false ∧
+    (judge fsEx (fsEx ++ [("tmp#0", "X")]) [("a.txt", "XY")] .killed).holds = true := by
+  decide +kernel
+
 end Pypyr.C15
